@@ -17,8 +17,26 @@ REPO = os.environ.get('VERIF_REPO', '/repo')
 BASE = os.path.join(ROOT, 'baseline', 'residue.json')
 
 
+# properties whose statement is about the whole engine state ("whenever quiescent the store holds a complete image", "continuing after a reload
+# produces the same messages"): every file that mutates tasks or builds messages counts as code they depend on, not only the anchors
+EXTRA = {
+    'C11': ['acts/src/scheduler/process', 'acts/src/scheduler/context.rs', 'acts/src/scheduler/runtime.rs', 'acts/src/package/core'],
+    'C12': ['acts/src/scheduler/process', 'acts/src/scheduler/context.rs', 'acts/src/scheduler/runtime.rs', 'acts/src/package/core', 'acts/src/cache'],
+    'C13': ['acts/src/cache', 'acts/src/scheduler/runtime.rs', 'acts/src/export/executor/process_executor.rs'],
+}
+
+
 def _anchor_files(prop):
     files = []
+    for a in EXTRA.get(prop, []):
+        full = os.path.join(REPO, a)
+        if os.path.isdir(full):
+            for dp, _, fns in sorted(os.walk(full)):
+                for fn in sorted(fns):
+                    if fn.endswith('.rs') and '/tests' not in dp and fn not in ('tests.rs',):
+                        files.append(os.path.relpath(os.path.join(dp, fn), REPO))
+        elif os.path.exists(full):
+            files.append(a)
     with open(os.path.join(ROOT, 'properties.jsonl')) as f:
         for ln in f:
             p = json.loads(ln)
